@@ -21,7 +21,6 @@ import (
 	"strconv"
 	"strings"
 	"testing"
-	"testing/synctest"
 	"time"
 
 	"github.com/go-spatial/geom"
@@ -277,8 +276,27 @@ func genCopyGeom(r *simrt.RNG, typ string, g grid) *gpkgh.G {
 	return out
 }
 
-func genTable(r *simrt.RNG, used map[string]bool, srs gpkgh.SRS, t tms20.TileMatrixSet, g grid, w *twork, nullGeoms bool) gpkgh.Table {
+func genTable(r *simrt.RNG, used map[string]bool, srs gpkgh.SRS, t tms20.TileMatrixSet, g grid, w *twork, nullGeoms bool, prefixOf string) gpkgh.Table {
 	tb := gpkgh.Table{Name: ident(r, used), Spatial: true, SRSID: srs.ID}
+	if prefixOf != "" { // table names that contain one another
+		if r.Chance(0.5) && len(prefixOf) > 4 {
+			// the new (later) name is contained in an earlier one
+			lo := r.Intn(2)
+			cand := prefixOf[lo : lo+3+r.Intn(len(prefixOf)-3-lo)]
+			if cand[0] >= 'a' && cand[0] <= 'z' && !used[cand] && !sqlKeywords[cand] && cand != prefixOf {
+				tb.Name = cand
+				used[cand] = true
+			}
+		} else {
+			for _, suf := range []string{"_1", "x", "_" + prefixOf} {
+				if !used[prefixOf+suf] {
+					tb.Name = prefixOf + suf
+					used[tb.Name] = true
+					break
+				}
+			}
+		}
+	}
 	switch x := r.Intn(10); {
 	case x < 4:
 		tb.GeomType = gpkgh.TPolygon
@@ -292,14 +310,23 @@ func genTable(r *simrt.RNG, used map[string]bool, srs gpkgh.SRS, t tms20.TileMat
 	pk := gpkgh.Column{Name: ident(r, cused), Type: "INTEGER", PK: true, NotNull: r.Chance(0.5)}
 	var attrs []gpkgh.Column
 	for i, n := 0, r.Intn(5); i < n; i++ {
-		typ := []string{"INTEGER", "REAL", "TEXT", "DOUBLE", "MEDIUMINT", "TEXT(20)"}[r.Intn(6)]
+		typ := []string{"INTEGER", "REAL", "TEXT", "DOUBLE", "MEDIUMINT", "TEXT(20)", "Integer", "text", "Real", "BLOB"}[r.Intn(10)]
 		attrs = append(attrs, gpkgh.Column{Name: ident(r, cused), Type: typ, NotNull: r.Chance(0.3)})
 	}
-	pos := r.Intn(len(attrs) + 1)
-	tb.Columns = append(tb.Columns, pk)
-	tb.Columns = append(tb.Columns, attrs[:pos]...)
-	tb.Columns = append(tb.Columns, gpkgh.Column{Name: tb.GeomCol, Type: tb.GeomType})
-	tb.Columns = append(tb.Columns, attrs[pos:]...)
+	// the primary key is usually the first column, not always
+	cols := append([]gpkgh.Column{pk}, attrs...)
+	if len(attrs) > 0 && r.Chance(0.25) {
+		k := 1 + r.Intn(len(attrs))
+		cols[0], cols[k] = cols[k], cols[0]
+	}
+	pos := r.Intn(len(cols) + 1)
+	tb.Columns = append(tb.Columns, cols[:pos]...)
+	geomNotNull := r.Chance(0.3)
+	if geomNotNull {
+		nullGeoms = false
+	}
+	tb.Columns = append(tb.Columns, gpkgh.Column{Name: tb.GeomCol, Type: tb.GeomType, NotNull: geomNotNull})
+	tb.Columns = append(tb.Columns, cols[pos:]...)
 	var n int
 	switch x := r.Intn(10); {
 	case x < 1:
@@ -334,13 +361,36 @@ func genTable(r *simrt.RNG, used map[string]bool, srs gpkgh.SRS, t tms20.TileMat
 				row.Vals = append(row.Vals, gpkgh.Val{})
 				continue
 			}
-			switch strings.Split(col.Type, "(")[0] {
+			switch strings.ToUpper(strings.Split(col.Type, "(")[0]) {
 			case "INTEGER", "MEDIUMINT":
-				row.Vals = append(row.Vals, gpkgh.IntVal(int64(r.Uint64()%2000001)-1000000))
+				v := int64(r.Uint64()%2000001) - 1000000
+				if r.Chance(0.1) {
+					v = int64(r.Uint64()>>2) - (1 << 61) // beyond 2^53
+				}
+				row.Vals = append(row.Vals, gpkgh.IntVal(v))
+			case "BLOB":
+				b := make([]byte, 1+r.Intn(12))
+				for k := range b {
+					b[k] = byte(r.Uint64())
+				}
+				row.Vals = append(row.Vals, gpkgh.BlobVal(string(b)))
 			case "REAL", "DOUBLE":
-				row.Vals = append(row.Vals, gpkgh.FloatVal(float64(int64(r.Uint64()%2000001)-1000000)/128))
+				v := float64(int64(r.Uint64()%2000001)-1000000) / 128
+				if r.Chance(0.15) {
+					v = float64(int64(r.Uint64()%2001) - 1000) // a whole number stays REAL
+				}
+				row.Vals = append(row.Vals, gpkgh.FloatVal(v))
 			default:
-				row.Vals = append(row.Vals, gpkgh.TextVal(fmt.Sprintf("%s-%d-%x", tb.Name, i, r.Uint64()%4096)))
+				v := fmt.Sprintf("%s-%d-%x", tb.Name, i, r.Uint64()%4096)
+				switch r.Intn(12) {
+				case 0:
+					v = ""
+				case 1:
+					v = strconv.Itoa(r.Intn(100000)) // text that looks like a number
+				case 2:
+					v = "1e" + strconv.Itoa(r.Intn(9))
+				}
+				row.Vals = append(row.Vals, gpkgh.TextVal(v))
 			}
 		}
 		switch tb.GeomType {
@@ -426,7 +476,14 @@ func genWork(seed uint64) (twork, simrt.FaultPlan, simrt.MapPolicy, uint64) {
 	used := map[string]bool{}
 	nullGeoms := r.Chance(0.25)
 	for i, nt := 0, 1+r.Intn(4); i < nt; i++ {
-		w.Source.Tables = append(w.Source.Tables, genTable(r, used, w.Source.SRS[r.Intn(nsrs)], t, g, &w, nullGeoms))
+		prefixOf := ""
+		if i > 0 && r.Chance(0.3) {
+			prefixOf = w.Source.Tables[r.Intn(i)].Name
+		}
+		w.Source.Tables = append(w.Source.Tables, genTable(r, used, w.Source.SRS[r.Intn(nsrs)], t, g, &w, nullGeoms, prefixOf))
+	}
+	if r.Chance(0.5) {
+		w.Source.MetaSeed = 1 + r.Uint64()>>1
 	}
 	if r.Chance(0.5) {
 		// a non-spatial table that must not be copied
@@ -548,7 +605,10 @@ func snapParts(w *twork, parts [][][][2]float64) (per map[int][][][][2]float64, 
 	return per, ""
 }
 
-func buildModel(w *twork) modelResult {
+// buildModel predicts every target file. Attribute values are taken from reading the
+// source file back (what SQLite actually stored, after column affinity), geometry for
+// snapping from the workload (rings open, as the tool's reader hands them on).
+func buildModel(w *twork, srcDump *gpkgh.FileDump) modelResult {
 	m := modelResult{tables: map[int][]*gpkgh.ExpTable{}, probes: simh.Counter{}}
 	simrt.SetMapOrder(simrt.MapSorted, 0)
 	defer simrt.SetMapOrder(simrt.MapNative, 0)
@@ -562,8 +622,13 @@ func buildModel(w *twork) modelResult {
 		for _, id := range w.IDs {
 			per[id] = &gpkgh.ExpTable{Name: t.Name, Columns: t.Columns, GeomCol: t.GeomCol, GeomType: t.GeomType, SRSID: t.SRSID}
 		}
+		sd := srcDump.Tables[t.Name]
+		if sd == nil || len(sd.Rows) != len(t.Rows) {
+			simh.Fatalf("toolsim: source table %s read back with %d rows, wrote %d", t.Name, lenRows(sd), len(t.Rows))
+		}
 		for ri, row := range t.Rows {
 			label := fmt.Sprintf("source row %d of %s", ri, t.Name)
+			row.Vals = sd.Rows[ri].Vals
 			if !poly {
 				for _, id := range w.IDs {
 					er := gpkgh.ExpRow{Vals: row.Vals, Geom: row.Geom, NullGeom: row.Geom == nil, Label: label}
@@ -795,6 +860,7 @@ func verify(w *twork, p prepared, m modelResult) (*simh.Violation, int) {
 }
 
 var tapeSink func(uint32)
+var onFatal func(v *simh.Violation)
 
 func runOne(t *testing.T, w *twork, fp simrt.FaultPlan, mp simrt.MapPolicy, mapSeed, seed uint64, tape []uint32, replay, trace bool, dir string, mode string, binary string) (rr runResult) {
 	rr.probes = simh.Counter{}
@@ -812,7 +878,14 @@ func runOne(t *testing.T, w *twork, fp simrt.FaultPlan, mp simrt.MapPolicy, mapS
 		rr.nontriv = true
 		return rr
 	}
-	m := buildModel(w)
+	p := prepare(w, seed, dir)
+	defer os.RemoveAll(dir)
+	rr.args = p.args
+	srcDump, err := gpkgh.ReadFile(p.src)
+	if err != nil {
+		simh.Fatalf("toolsim: reading the source back: %v", err)
+	}
+	m := buildModel(w, srcDump)
 	if m.skip != "" {
 		rr.skipped = m.skip
 		rr.probes.Inc("skipped:library-panics-on-generated-polygon")
@@ -820,33 +893,24 @@ func runOne(t *testing.T, w *twork, fp simrt.FaultPlan, mp simrt.MapPolicy, mapS
 		rr.probes.Inc("skipped-tms:" + w.TMS)
 		return rr
 	}
-	p := prepare(w, seed, dir)
-	defer os.RemoveAll(dir)
-	rr.args = p.args
 	switch mode {
 	case "sim":
 		simrt.SetMapOrder(mp, mapSeed)
-		leak := ""
-		func() {
-			defer func() {
-				if r := recover(); r != nil {
-					leak = fmt.Sprint(r)
-				}
-			}()
-			rows := 0
-			for _, tb := range w.Source.Tables {
-				rows += len(tb.Rows)
+		rows := 0
+		for _, tb := range w.Source.Tables {
+			rows += len(tb.Rows)
+		}
+		opt := simrt.Options{Seed: seed, Faults: fp, Tape: tape, Replay: replay, Trace: trace, TapeSink: tapeSink,
+			MaxSteps: 20000 + 600*(rows+len(w.Source.Tables)+2)*(len(w.IDs)+2)}
+		var leak string
+		rr.sim, leak = simh.RunBubble(t, opt, func() {
+			os.Args = p.args
+			main()
+		}, func(stacks string) {
+			if onFatal != nil {
+				onFatal(&simh.Violation{Class: "tool/goroutine-leak", Message: stacks})
 			}
-			synctest.Test(t, func(t *testing.T) {
-				s := simrt.New(simrt.Options{Seed: seed, Faults: fp, Tape: tape, Replay: replay, Trace: trace, TapeSink: tapeSink,
-					MaxSteps:      20000 + 600*(rows+len(w.Source.Tables)+2)*(len(w.IDs)+2),
-					WaitQuiescent: synctest.Wait, SleepFake: func(d time.Duration) { time.Sleep(d) }})
-				rr.sim = s.Run(func() {
-					os.Args = p.args
-					main()
-				})
-			})
-		}()
+		})
 		simrt.SetMapOrder(simrt.MapNative, 0)
 		switch {
 		case rr.sim.Outcome == "deadlock":
@@ -988,6 +1052,10 @@ func TestVerifToolsim(t *testing.T) {
 					Tape: rr.sim.Tape, Violation: rr.violation, ShrinkArrays: shrinkArrays, ShrinkInts: []string{"workload.page_size"}, Trace: rr.sim.Trace, Args: rr.args}
 			}
 			tapeSink = simh.StreamReplay(job, func() interface{} { return mk(runResult{}) })
+			onFatal = func(v *simh.Violation) {
+				out.Line(map[string]interface{}{"t": "violation", "seed": seed, "replay": mk(runResult{violation: v})})
+				os.Exit(0)
+			}
 			wantSample := len(sum.Samples) < job.Samples && len(w.Source.Tables) <= 2 && rowsOf(&w) >= 2 && rowsOf(&w) <= 6
 			rr := runOne(t, &w, fp, mp, mapSeed, seed, nil, false, job.Mode == "selftest", filepath.Join(job.Scratch, "run"), mode, job.Extra["binary"])
 			if rr.skipped != "" && len(sum.Notes) < 3 {
@@ -1040,6 +1108,11 @@ func TestVerifToolsim(t *testing.T) {
 			mp, _ := simrt.ParseMapPolicy(rf.MapPolicy)
 			class, msg := "", ""
 			var trace []string
+			ci := i
+			onFatal = func(v *simh.Violation) {
+				out.Line(map[string]interface{}{"t": "cand", "cand": ci, "class": v.Class, "message": v.Message})
+				os.Exit(0)
+			}
 			spatial := 0
 			for _, tb := range rf.Workload.Source.Tables {
 				if tb.Spatial {
@@ -1066,6 +1139,13 @@ func TestVerifToolsim(t *testing.T) {
 	default:
 		simh.Fatalf("unknown mode %q", job.Mode)
 	}
+}
+
+func lenRows(t *gpkgh.TableDump) int {
+	if t == nil {
+		return -1
+	}
+	return len(t.Rows)
 }
 
 func rowsOf(w *twork) int {
